@@ -478,11 +478,49 @@ func (c *Conn) alive() bool {
 	return !c.closed && !c.broken && c.rerr == nil
 }
 
-func (c *Conn) execEnabled() bool {
+func (c *Conn) execPossible() bool {
 	if _, stalled := c.env.Stall[c.Srv.Idx]; stalled {
 		return false
 	}
 	return len(c.SC.Pending) > 0 && c.Srv.Up && !c.Srv.Silent && !c.SC.Closed && c.alive()
+}
+
+// due lists the pending requests the server may execute now: all of them,
+// or, on a slow server, those that arrived at least its service time ago.
+func (c *Conn) due() []int {
+	slow := c.env.Slow[c.Srv.Idx]
+	now := int64(c.env.Now())
+	var out []int
+	for i, rq := range c.SC.Pending {
+		if slow == 0 || rq.Arrived+int64(slow) <= now {
+			out = append(out, i)
+		}
+	}
+	return out
+}
+
+func (c *Conn) execEnabled() bool {
+	return c.execPossible() && len(c.due()) > 0
+}
+
+// nextService returns how long it takes until a slow server executes the
+// next of the requests it holds.
+func (c *Conn) nextService() (time.Duration, bool) {
+	slow := c.env.Slow[c.Srv.Idx]
+	if slow == 0 || !c.execPossible() {
+		return 0, false
+	}
+	first := c.SC.Pending[0].Arrived
+	for _, rq := range c.SC.Pending {
+		if rq.Arrived < first {
+			first = rq.Arrived
+		}
+	}
+	d := time.Duration(first+int64(slow)) - c.env.Now()
+	if d <= 0 {
+		return 0, false
+	}
+	return d, true
 }
 
 func (c *Conn) deliverEnabled() bool {
@@ -494,9 +532,10 @@ func (c *Conn) deliverEnabled() bool {
 // execOne lets the server execute one pending request of this connection.
 func (c *Conn) execOne() {
 	e := c.env
-	i := 0
-	if n := len(c.SC.Pending); n > 1 && e.Rng.Chance(e.Knobs.Reorder) {
-		i = e.Rng.Intn(n)
+	due := c.due()
+	i := due[0]
+	if n := len(due); n > 1 && e.Rng.Chance(e.Knobs.Reorder) {
+		i = due[e.Rng.Intn(n)]
 	}
 	req := c.SC.Pending[i]
 	c.SC.Pending = append(c.SC.Pending[:i:i], c.SC.Pending[i+1:]...)
